@@ -53,8 +53,24 @@ var c11States = []struct {
 }{{"5", true}, {"-3", true}, {"010", true}, {"0x1F", true}, {"", true}, {"", false}, {"abc", true}, {"1x", true}, {"08", true}, {"63", true}, {"64", true}, {"-9223372036854775808", true}, {"9223372036854775807", true}, {"0b11", true}, {"1_000", true}, {"0o17", true}, {"0x_f", true}}
 
 func c11Run(env *interp.ExecEnv, cs c11Case) (n int, err error, perr error) {
-	if cs.Via == "expand" {
-		cmd, _, e := parser.ParseCommand("c11", "x $(("+cs.Src+"))")
+	if cs.Via == "expand" || cs.Via == "expand-alias" {
+		var cmd ast.Command
+		var e error
+		if cs.Via == "expand-alias" {
+			// the same text as the value of an alias: every token then carries the
+			// position of the alias word
+			penv := interp.NewExecEnv("sh")
+			penv.Aliases["al"] = "x $((" + cs.Src + "))"
+			var cmds []ast.Command
+			cmds, _, e = parser.ParseCommands(penv, "c11", "al")
+			if e == nil && len(cmds) == 1 {
+				cmd = cmds[0]
+			} else if e == nil {
+				e = fmt.Errorf("alias source gave %d commands", len(cmds))
+			}
+		} else {
+			cmd, _, e = parser.ParseCommand("c11", "x $(("+cs.Src+"))")
+		}
 		if e != nil {
 			return 0, nil, e
 		}
@@ -74,6 +90,24 @@ func c11Run(env *interp.ExecEnv, cs c11Case) (n int, err error, perr error) {
 	}
 	n, err = env.Eval(cs.Src)
 	return n, err, nil
+}
+
+// c11Continue puts a backslash-newline into the middle of the k-th (mod n)
+// blank-separated piece that has at least two characters.
+func c11Continue(src string, k int) string {
+	fs := strings.Fields(src)
+	var idx []int
+	for i, f := range fs {
+		if len(f) >= 2 && !strings.ContainsAny(f, "()") {
+			idx = append(idx, i)
+		}
+	}
+	if len(idx) == 0 {
+		return src
+	}
+	i := idx[k%len(idx)]
+	fs[i] = fs[i][:1] + "\\\n" + fs[i][1:]
+	return strings.Join(fs, " ")
 }
 
 func c11Env(st map[string]string) *interp.ExecEnv {
@@ -297,6 +331,14 @@ func c11Emit(c *core.Ctx, e *ra.Expr, st map[string]string, kind string, r *rand
 	if c.Index()%10 == 4 {
 		// through Expand with ordinary spacing: tokens that are apart stay apart ("- -x" is not "--x")
 		cs.Via, cs.Src = "expand", strings.NewReplacer("\n", " ", "\t", " ").Replace(ra.Render(toks, r, true))
+	}
+	if c.Index()%10 == 6 {
+		// ... and the same when the expansion comes out of an alias value
+		cs.Via, cs.Src = "expand-alias", strings.NewReplacer("\n", " ", "\t", " ").Replace(ra.Render(toks, r, true))
+	}
+	if c.Index()%10 == 7 {
+		// ... and with a backslash-newline inside one of the tokens (it is removed before tokens are formed)
+		cs.Via, cs.Src = "expand", c11Continue(strings.NewReplacer("\n", " ", "\t", " ").Replace(ra.Render(toks, r, true)), int(c.Index()))
 	}
 	if cs.Via == "eval" {
 		cs.Src = ra.Render(toks, r, c.Index()%3 == 0)
